@@ -112,7 +112,11 @@ func (fv *FuncVerifier) evalCall(st *State, e *ast.CallExpr) []Val {
 				for i, cl := range cls {
 					g := fv.ownEnvAt(st, &errs, e.Pos()).eval(cl.Expr)
 					fv.oblige(st, "assert", fmt.Sprintf("before %s [%s] %s", key, clauseName(cl, i), cl.Text), g.T)
-					fv.assume(st, g.T)
+					if !cl.NoAssume {
+						fv.assume(st, g.T)
+					} else if n := len(fv.obls); n > 0 && fv.obls[n-1].Kind == "assert" {
+						fv.obls[n-1].NoRetry = true
+					}
 				}
 				if len(errs) > 0 {
 					fv.unsupported("spec errors in before-assert: " + strings.Join(errs, "; "))
